@@ -115,7 +115,7 @@ class WorldGen:
         x = r.random()
         if first:
             if self.has("lookalike_first") and x < 0.5:
-                return r.choice(["P5", short(self.recent_date()), "o", "x", "P1"])
+                return r.choice(["P5", short(self.recent_date()), "o", "x", "P1", self.recent_date().isoformat().replace("-", "/"), self.recent_date().isoformat().replace("-", "."), "2024x01y05", "2024-1-5", "20240105"])
             return r.choice(PLAIN)
         if x < 0.55:
             return r.choice(PLAIN)
